@@ -9,6 +9,7 @@ import (
 	"errors"
 	"fmt"
 	"math/rand"
+	mrand "math/rand"
 	"strings"
 	"time"
 
@@ -122,6 +123,9 @@ func (h *hist) newFact() *fact {
 	c.Expire, c.Revoke, c.Precision = h.expire, h.revoke, h.precision
 	fa := &fact{id: h.nfact, cfg: c, alive: true}
 	h.nfact++
+	// a process start: an application that seeds the global math/rand source with a constant does so here.
+	// Cryptographic randomness must not depend on it (with crypto/rand nothing repeats).
+	mrand.Seed(20260101) //nolint:staticcheck
 	fa.f = h.w.Factory(c, h.svc, h.prod)
 	h.r.SetAdd("config_tuples", c.String())
 	h.logf("factory#%d new %s", fa.id, c)
